@@ -117,4 +117,3 @@ package orefafs
 //@   ensures[C02] len(nd.data) == size
 //@   ensures[C02] forall i int :: 0 <= i && i < size && i < len(old(nd.data)) ==> nd.data[i] == old(nd.data[i])
 //@   ensures[C02] forall i int :: len(old(nd.data)) <= i && i < size ==> nd.data[i] == 0
-
